@@ -167,6 +167,12 @@ func (ex *Exec) bytesOfNode(st *State, n *StructV) *SliceV {
 func registerFSStubs(ex *Exec) {
 	S := ex.Stubs
 	ex.GlobalInit["os.ErrNotExist"] = func(ex *Exec, st *State) Value { return ex.errNotExist() }
+	for _, g := range []string{"path/filepath.SkipDir", "io/fs.SkipDir"} {
+		ex.GlobalInit[g] = func(ex *Exec, st *State) Value { return ex.errSkipDir() }
+	}
+	for _, g := range []string{"path/filepath.SkipAll", "io/fs.SkipAll"} {
+		ex.GlobalInit[g] = func(ex *Exec, st *State) Value { return ex.errSkipAll() }
+	}
 	S["os.IsNotExist"] = func(ex *Exec, st *State, site ssa.Instruction, fn *ssa.Function, args []Value) Value {
 		return ex.errorsIs(args[0], ex.errNotExist())
 	}
@@ -393,7 +399,7 @@ func registerFSStubs(ex *Exec) {
 	// filepath.Walk over the symbolic file system: the paths known to the model below root, in the order Walk uses
 	// (depth first, names sorted per directory); a path is visited when it exists and every directory above it up
 	// to root is a directory. A missing root is reported to the callback with a nil FileInfo and an error, as the
-	// real function does. filepath.SkipDir/SkipAll results and unreadable directories are not modelled.
+	// real function does; filepath.SkipDir/SkipAll results are honoured. Unreadable directories are not modelled.
 	S["path/filepath.Walk"] = func(ex *Exec, st *State, site ssa.Instruction, fn *ssa.Function, args []Value) Value {
 		m := ex.fsm(st)
 		root := filepath.Clean(concreteStrArg(args[0], "filepath.Walk root"))
@@ -617,7 +623,32 @@ func (ex *Exec) walkSteps(st *State, site ssa.Instruction, steps []walkStep, cb 
 			*st = *dst
 			return mergeV(sp.guard, r, rest)
 		}
-		isErr := smt.Not(ex.eqV(r, Nil))
+		notNil := smt.Not(ex.eqV(r, Nil))
+		// filepath.SkipDir: from a directory, its content is skipped; from a file, the remaining entries of the
+		// containing directory are skipped (that is what the real Walk does). filepath.SkipAll ends the walk.
+		// Neither is an error of the walk.
+		skipDir, skipAll := smt.False, smt.False
+		if !notNil.IsFalse() {
+			skipDir = smt.And(notNil, ex.eqV(r, ex.errSkipDir()))
+			skipAll = smt.And(notNil, ex.eqV(r, ex.errSkipAll()))
+		}
+		if !skipDir.IsFalse() || !skipAll.IsFalse() {
+			rest := append([]walkStep(nil), steps[k+1:]...)
+			dirPrefix := filepath.Dir(sp.path) + "/"
+			for j := range rest {
+				affected := smt.False
+				if strings.HasPrefix(rest[j].path, sp.path+"/") {
+					affected = smt.Or(affected, smt.And(skipDir, sp.isDir)) // content of the skipped directory
+				}
+				if strings.HasPrefix(rest[j].path, dirPrefix) {
+					affected = smt.Or(affected, smt.And(skipDir, smt.Not(sp.isDir))) // rest of the file's directory
+				}
+				affected = smt.Or(affected, skipAll)
+				rest[j].guard = smt.And(rest[j].guard, smt.Not(affected))
+			}
+			steps = append(append([]walkStep(nil), steps[:k+1]...), rest...)
+		}
+		isErr := smt.And(notNil, smt.And(smt.Not(skipDir), smt.Not(skipAll)))
 		if isErr.IsTrue() {
 			return r
 		}
@@ -633,4 +664,18 @@ func (ex *Exec) walkSteps(st *State, site ssa.Instruction, steps []walkStep, cb 
 		}
 	}
 	return Nil
+}
+
+func (ex *Exec) errSkipDir() Value {
+	if ex.skipDir == nil {
+		ex.skipDir = &IfaceV{T: nil, V: ex.newOpaque("error")}
+	}
+	return ex.skipDir
+}
+
+func (ex *Exec) errSkipAll() Value {
+	if ex.skipAll == nil {
+		ex.skipAll = &IfaceV{T: nil, V: ex.newOpaque("error")}
+	}
+	return ex.skipAll
 }
